@@ -93,10 +93,12 @@ type Session struct {
 	txs  map[int]*txh
 	curs map[int]*curh
 
-	HangFile string        // where a watchdog writes its report
-	Deadline time.Duration // per-step deadline
-	Label    string
-	stepNo   int
+	AutoObserve bool // decode the file / read the statistics after every write transaction
+	obsN        int
+	HangFile    string        // where a watchdog writes its report
+	Deadline    time.Duration // per-step deadline
+	Label       string
+	stepNo      int
 }
 
 type curh struct {
@@ -206,6 +208,9 @@ func (s *Session) Open(first bool) error {
 	db.StrictMode = s.Opts.StrictMode
 	s.DB = db
 	s.T.OnYield = s.onYield
+	if s.AutoObserve {
+		s.Observe(true)
+	}
 	return nil
 }
 
@@ -421,6 +426,12 @@ func (s *Session) op(st Step) {
 	t := s.txs[st.H]
 	if t == nil {
 		return
+	}
+	if !t.open {
+		switch st.Op {
+		case "Get", "Sequence", "Lookup", "CountKeys", "CountBuckets":
+			return // reads through a closed transaction are not part of the API contract
+		}
 	}
 	root := len(st.Path) == 0
 	var b *bolt.Bucket
@@ -691,7 +702,15 @@ func (s *Session) Exec(st Step) {
 	case "Op":
 		s.op(st)
 	case "End":
+		wasW := false
+		if t := s.txs[st.H]; t != nil && t.open && t.w {
+			wasW = true
+		}
 		s.endTx(st.H, st.How, false)
+		if wasW && s.AutoObserve {
+			s.obsN++
+			s.Observe(s.obsN%4 == 0)
+		}
 	case "Dump":
 		s.dump(st.H)
 	case "ForEach":
@@ -729,4 +748,41 @@ func (s *Session) Tx(h int) *bolt.Tx {
 		return t.tx
 	}
 	return nil
+}
+
+// Observe records the page-level observations of the file at a quiescent point: the
+// independent decode (reachable pages, freelist page, file length), DB.Stats, and
+// optionally Tx.Check.
+func (s *Session) Observe(check bool) *Decoded {
+	if s.DB == nil {
+		return nil
+	}
+	if _, wr := s.OpenHandles(); wr != 0 {
+		return nil
+	}
+	d, err := DecodeFile(s.Path)
+	if err != nil {
+		s.T.Add(Ev{"ev": "DecodeFailed", "err": err.Error()})
+		return nil
+	}
+	s.T.Add(d.Event())
+	st := s.DB.Stats()
+	s.T.Add(Ev{"ev": "Stats", "freeN": st.FreePageN, "pendN": st.PendingPageN})
+	if check {
+		n := 0
+		var first string
+		s.guard("Check", func() {
+			_ = s.DB.View(func(tx *bolt.Tx) error {
+				for e := range tx.Check() {
+					if n == 0 {
+						first = e.Error()
+					}
+					n++
+				}
+				return nil
+			})
+		})
+		s.T.Add(Ev{"ev": "Check", "errors": n, "first": first})
+	}
+	return d
 }
